@@ -21,7 +21,7 @@ func init() {
 		Assume: []string{"writers in the concurrent sub-workload only add cells, so that GC(M_final) <= final is implied by the statement for every pass instant", "the activity sub-workload uses no constant from the code: 'in use' = touched at most 1 s of wall clock ago"},
 		Run:    runC16,
 	})
-	expectedProbes["C16"] = []string{"c16.condemned", "c16.boundary_cell", "c16.write_inside_pass", "c16.active_table_skipped", "c16.touched_after_long_idle", "c16.idle_table_collected", "c16.union", "c16.intersection_untouched"}
+	expectedProbes["C16"] = []string{"c16.condemned", "c16.boundary_cell", "c16.write_inside_pass", "c16.active_table_skipped", "c16.touched_after_long_idle", "c16.rows_wholly_condemned", "c16.idle_table_collected", "c16.union", "c16.intersection_untouched"}
 }
 
 func c16Rule(d *draws) *btapb.GcRule {
@@ -249,6 +249,12 @@ func c16Concurrent(r *Run, cfg *Stream) {
 	if d.n(3) == 0 {
 		rule = &btapb.GcRule{Rule: &btapb.GcRule_Union_{Union: &btapb.GcRule_Union{Rules: []*btapb.GcRule{rule, {Rule: &btapb.GcRule_MaxAge{MaxAge: &durationpb.Duration{Seconds: 10}}}}}}}
 	}
+	doomed := false
+	if d.n(3) == 0 {
+		rule = &btapb.GcRule{Rule: &btapb.GcRule_MaxAge{MaxAge: &durationpb.Duration{Seconds: 10}}}
+		doomed = true
+		r.Probe("c16.rows_wholly_condemned")
+	}
 	fams := map[string]*btapb.GcRule{"f1": rule, "f2": nil}
 	now := int64(1_700_000_000_000_000)
 	clk := NewClock(now, 1_700_000_000_000_000_000)
@@ -266,6 +272,11 @@ func c16Concurrent(r *Run, cfg *Stream) {
 		keys = append(keys, k)
 		// three versions in f1:q (some condemned), one in f2
 		muts := mutList{setCell("f1", "q", now-3000, "a"), setCell("f1", "q", now-2000, "b"), setCell("f1", "q", now-20_000_000, "old"), setCell("f2", "k", now-20_000_000, "keep")}
+		if doomed && i%3 == 1 {
+			// a row every cell of which the rule condemns: the pass removes the whole row,
+			// unless a client writes it anew while the pass is running
+			muts = mutList{setCell("f1", "q", now-20_000_000, "old"), setCell("f1", "z", now-30_000_000, "older")}
+		}
 		entries = append(entries, entryIn{Key: k, Muts: muts})
 		mt.Rows[k] = mt.applyMutations(mRow{}, muts, now).row
 	}
